@@ -622,14 +622,11 @@ func ExecutePlan(plan *Plan, p ExecuteParams) (result *Result) {
 			plan:           plan,
 		}
 
-		data := executePlannedSelection(eCtx, plan.root, p.Root, plan.rootType, nil)
-		// Mutations run serially with each field's result
-		// dethunked depth-first; queries run all then dethunk
-		// breadth-first. The traversal here just runs the appropriate
-		// dethunker on the assembled map.
-		if plan.isMutation {
-			dethunkMapDepthFirst(data)
-		} else {
+		// Mutations run serially: everything a top-level field deferred is
+		// forced (depth-first) before the next top-level field's resolver
+		// starts. Queries resolve all fields, then dethunk breadth-first.
+		data := executePlannedSelection(eCtx, plan.root, p.Root, plan.rootType, nil, plan.isMutation)
+		if !plan.isMutation {
 			dethunkMapWithBreadthFirstTraversal(data)
 		}
 		out.Data = data
@@ -653,7 +650,11 @@ func ExecutePlan(plan *Plan, p ExecuteParams) (result *Result) {
 // Mutation vs. query traversal is handled at the top level in
 // ExecutePlan via dethunkMapDepthFirst / dethunkMapWithBreadthFirstTraversal,
 // so this walker is the same for both.
-func executePlannedSelection(eCtx *executionContext, sp *selectionPlan, source interface{}, parentType *Object, path *ResponsePath) map[string]interface{} {
+//
+// With serial set (the root selection of a mutation) each field's result is
+// dethunked depth-first as soon as the field has been resolved, so that no
+// later field starts before an earlier one has completely finished.
+func executePlannedSelection(eCtx *executionContext, sp *selectionPlan, source interface{}, parentType *Object, path *ResponsePath, serial bool) map[string]interface{} {
 	if sp == nil {
 		return map[string]interface{}{}
 	}
@@ -676,9 +677,27 @@ func executePlannedSelection(eCtx *executionContext, sp *selectionPlan, source i
 		if !ok {
 			continue
 		}
+		if serial {
+			resolved = dethunkValueDepthFirst(resolved)
+		}
 		finalResults[fp.responseKey] = resolved
 	}
 	return finalResults
+}
+
+// dethunkValueDepthFirst forces a single completed value: the value itself if
+// it is a thunk, then every thunk nested in it, depth-first.
+func dethunkValueDepthFirst(v interface{}) interface{} {
+	if f, ok := v.(func() interface{}); ok {
+		v = f()
+	}
+	switch val := v.(type) {
+	case map[string]interface{}:
+		dethunkMapDepthFirst(val)
+	case []interface{}:
+		dethunkListDepthFirst(val)
+	}
+	return v
 }
 
 // resolvePlannedField mirrors resolveField but uses the plan's
@@ -907,7 +926,7 @@ func completePlannedObjectValue(eCtx *executionContext, returnType *Object, fp *
 		}
 	}
 	if fp.sub != nil {
-		return executePlannedSelection(eCtx, fp.sub, result, returnType, path)
+		return executePlannedSelection(eCtx, fp.sub, result, returnType, path, false)
 	}
 	// Fallback: planner didn't precompute (e.g. selection set was
 	// empty per validation, which shouldn't reach here for object
@@ -943,7 +962,7 @@ func completePlannedAbstractValue(eCtx *executionContext, returnType Abstract, f
 	// planMergedFieldChildren.
 	if eCtx.plan != nil {
 		if sub := eCtx.plan.abstractAlternative(fp, runtimeType); sub != nil {
-			return executePlannedSelection(eCtx, sub, result, runtimeType, path)
+			return executePlannedSelection(eCtx, sub, result, runtimeType, path, false)
 		}
 	}
 	// The concrete type contributes no selectable fields (e.g. only
